@@ -37,7 +37,7 @@ theorem buildBranches_one_answer (g : BGraph) (del : List Nat) (id : Nat) (a : O
 theorem toGraph_ofGraph (names : List (Option Nat)) (g : Graph) : (BGraph.ofGraph names g).toGraph = g := by
   unfold BGraph.ofGraph BGraph.toGraph
   simp only [List.map_map]
-  have h1 : ((fun x : BVertex => x.op) ∘ fun p : VOp × Nat => (⟨(names[p.2]?).join, p.1, none, [], [], false, none, []⟩ : BVertex)) =
+  have h1 : ((fun x : BVertex => x.op) ∘ fun p : VOp × Nat => (⟨(names[p.2]?).join, p.1, none, [], [], false, none, [], false, false, none, [], none, none, false⟩ : BVertex)) =
       Prod.fst := rfl
   have h2 : (BEdge.toEdge ∘ BEdge.ofEdge) = id := rfl
   rw [h1, h2, List.map_id, List.zipIdx_map_fst]
@@ -71,10 +71,10 @@ theorem front_through_branches_preserve (labels : List Lbl) (opt : Bool) (rid : 
 /-- non-vacuity: `if (Branch) { Bar } else { Foo; Jump @end } §end: Baz` - the hypotheses hold, the phase answers,
 the Jump (vertex 2) is by-passed and deleted, the end label carries `IfEnd(0)` -/
 def exIfElse : BGraph :=
-  { vs := [⟨some 0, .item (.ljump ⟨0, "Branch", []⟩ 1 false), none, [], [], false, none, []⟩, ⟨some 1, .item (.op ⟨1, "Foo", []⟩), none, [], [], false, none, []⟩,
-           ⟨some 2, .item (.ljump ⟨2, "Jump", []⟩ 2 false), none, [], [], false, none, []⟩, ⟨some 3, .item (.label 1), none, [], [], false, none, []⟩,
-           ⟨some 4, .item (.op ⟨3, "Bar", []⟩), none, [], [], false, none, []⟩, ⟨some 5, .item (.label 2), none, [], [], false, none, []⟩,
-           ⟨some 6, .item (.op ⟨4, "Baz", []⟩), none, [], [], false, none, []⟩],
+  { vs := [⟨some 0, .item (.ljump ⟨0, "Branch", []⟩ 1 false), none, [], [], false, none, [], false, false, none, [], none, none, false⟩, ⟨some 1, .item (.op ⟨1, "Foo", []⟩), none, [], [], false, none, [], false, false, none, [], none, none, false⟩,
+           ⟨some 2, .item (.ljump ⟨2, "Jump", []⟩ 2 false), none, [], [], false, none, [], false, false, none, [], none, none, false⟩, ⟨some 3, .item (.label 1), none, [], [], false, none, [], false, false, none, [], none, none, false⟩,
+           ⟨some 4, .item (.op ⟨3, "Bar", []⟩), none, [], [], false, none, [], false, false, none, [], none, none, false⟩, ⟨some 5, .item (.label 2), none, [], [], false, none, [], false, false, none, [], none, none, false⟩,
+           ⟨some 6, .item (.op ⟨4, "Baz", []⟩), none, [], [], false, none, [], false, false, none, [], none, none, false⟩],
     es := [⟨0, 1, 0, false, false, []⟩, ⟨0, 3, 1, false, false, []⟩, ⟨1, 2, 0, false, false, []⟩, ⟨2, 5, 1, false, false, []⟩,
            ⟨3, 4, 0, false, false, []⟩, ⟨4, 5, 0, false, false, []⟩, ⟨5, 6, 0, false, false, []⟩] }
 example : branchesStructOk exIfElse = true := by decide
